@@ -23,6 +23,13 @@ theorem allTerm_flatten_pos {t : Nat} {Z : List Bytes} (h : AllTerm t Z) (hne : 
     simp only [List.flatten_cons, List.length_append]
     omega
 
+theorem allTerm_flatten_getLast {t : Nat} {Z : List Bytes} (h : AllTerm t Z) (hne : Z ≠ []) :
+    Z.flatten.getLast? = some t := by
+  rcases snoc_cases Z with rfl | ⟨init, x, rfl⟩
+  · exact absurd rfl hne
+  · obtain ⟨body, rfl, _⟩ := h x (by simp)
+    simp
+
 theorem allTerm_append {t : Nat} {a b : List Bytes} (ha : AllTerm t a) (hb : AllTerm t b) : AllTerm t (a ++ b) := by
   intro x hx
   simp only [List.mem_append] at hx
